@@ -285,6 +285,13 @@ where
 
     // Computes a merkle proof the leaf at the specified index
     fn proof(&self, index: usize) -> Result<Self::Proof> {
+        #[cfg(zerokit_verif)]
+        if let Some(sc) = crate::verif_trace::enter_proof() {
+            let sc = sc.call::<Self>(self.verif_id(), "optimal", "proof", format!("\"i\":{}", index));
+            let r = self.proof(index);
+            sc.finish_proof(self, r.as_ref().ok());
+            return r;
+        }
         if index >= self.capacity() {
             return Err(Report::msg("index exceeds set size"));
         }
